@@ -334,5 +334,5 @@ def phases(tier):
     return [
         Phase('span-pairs', check_case, gen=gen_pairs(3 if quick else 5), exhaustive=False,
               note='fixed family of new spans per old span; fill sets cycled'),
-        Phase('random', check_case, strategy=strategy, examples=3000 if quick else 80000),
+        Phase('random', check_case, strategy=strategy, examples=8000 if quick else 200000),
     ]
